@@ -9,12 +9,14 @@ Open Scope Z_scope.
 (* ---------- numerals ---------- *)
 Definition is_dig (c : Z) : bool := existsb (Z.eqb c) [48; 49; 50; 51; 52; 53; 54; 55; 56; 57].
 
-(* positional value of a digit string: sum of digit * 10^position *)
-Fixpoint nat_val (l : list Z) : Z :=
+(* positional value of a digit string: sum of digit * 10^position, computed from the right together
+   with the weight 10^length *)
+Fixpoint nat_val_w (l : list Z) : Z * Z :=
   match l with
-  | [] => 0
-  | c :: r => (c - 48) * 10 ^ zlen r + nat_val r
+  | [] => (0, 1)
+  | c :: r => let vw := nat_val_w r in ((c - 48) * snd vw + fst vw, 10 * snd vw)
   end.
+Definition nat_val (l : list Z) : Z := fst (nat_val_w l).
 
 (* Unicode White_Space *)
 Definition is_ws (c : Z) : bool :=
@@ -31,7 +33,7 @@ Definition strip (l : list Z) : list Z := rev (skip_ws (rev (skip_ws l))).
 (* longest prefix of digits, and the rest *)
 Fixpoint span_digits (l : list Z) : list Z * list Z :=
   match l with
-  | c :: r => if is_dig c then (c :: fst (span_digits r), snd (span_digits r)) else ([], l)
+  | c :: r => if is_dig c then let ab := span_digits r in (c :: fst ab, snd ab) else ([], l)
   | [] => ([], [])
   end.
 
@@ -47,21 +49,26 @@ Definition numeral_Q (n : numeral) : Q := (inject_Z (mant n) / inject_Z (10 ^ fd
 
 Definition is_nil {A} (l : list A) : bool := match l with [] => true | _ :: _ => false end.
 
+(* an optional sign in front: '-', and '+' where it is allowed *)
+Definition take_sign (plus_ok : bool) (t : list Z) : bool * list Z :=
+  match t with
+  | c :: r => if c =? 45 then (true, r) else if plus_ok && (c =? 43) then (false, r) else (false, t)
+  | [] => (false, t)
+  end.
+
 (* numerals in the wide sense: [spaces] [+|-] digits* [ . digits* ] [spaces], at least one digit *)
 Definition parse_numeral (t : list Z) : option numeral :=
-  let t := strip t in
-  let '(ng, r) := match t with
-                  | 45 :: r => (true, r)
-                  | 43 :: r => (false, r)
-                  | _ => (false, t)
-                  end in
-  let ip := fst (span_digits r) in
-  match snd (span_digits r) with
+  let sg := take_sign true (strip t) in
+  let ng := fst sg in
+  let sp := span_digits (snd sg) in
+  let ip := fst sp in
+  match snd sp with
   | [] => if is_nil ip then None else Some {| nneg := ng; ipart := ip; fpart := [] |}
   | c :: r2 =>
       if c =? 46 then
-        let fp := fst (span_digits r2) in
-        match snd (span_digits r2) with
+        let sp2 := span_digits r2 in
+        let fp := fst sp2 in
+        match snd sp2 with
         | [] => if is_nil ip && is_nil fp then None else Some {| nneg := ng; ipart := ip; fpart := fp |}
         | _ :: _ => None
         end
@@ -99,12 +106,15 @@ Definition parse_ok (p s : Z) (t : list Z) (out : option Z) : bool :=
    else; no '-' in front of zero *)
 Definition last_ch (l : list Z) : Z := last l 0.
 Definition shape_ok (t : list Z) : bool :=
-  let '(ng, r) := match t with 45 :: r => (true, r) | _ => (false, t) end in
-  let ip := fst (span_digits r) in
-  match snd (span_digits r) with
+  let sg := take_sign false t in
+  let ng := fst sg in
+  let sp := span_digits (snd sg) in
+  let ip := fst sp in
+  match snd sp with
   | c :: r2 =>
-      let fp := fst (span_digits r2) in
-      (c =? 46) && is_nil (snd (span_digits r2)) &&
+      let sp2 := span_digits r2 in
+      let fp := fst sp2 in
+      (c =? 46) && is_nil (snd sp2) &&
       negb (is_nil ip) && negb (is_nil fp) &&
       ((zlen ip =? 1) || negb (hd 0 ip =? 48)) &&
       ((zlen fp =? 1) || negb (last_ch fp =? 48)) &&
